@@ -435,7 +435,7 @@ Hclose(int32 file_id)
     HEclear();
 
     /* convert file id to file rec and check for validity */
-    file_rec = HAatom_object(file_id);
+    file_rec = HIfid2rec(file_id);
     if (BADFREC(file_rec))
         HGOTO_ERROR(DFE_ARGS, FAIL);
 
@@ -544,7 +544,7 @@ Hinquire(int32 access_id, int32 *pfile_id, uint16 *ptag, uint16 *pref, int32 *pl
 
     /* clear error stack and check validity of access id */
     HEclear();
-    access_rec = HAatom_object(access_id);
+    access_rec = HIaid2rec(access_id);
     if (access_rec == (accrec_t *)NULL)
         HGOTO_ERROR(DFE_ARGS, FAIL);
 
@@ -593,7 +593,7 @@ Hfidinquire(int32 file_id, char **fname, int *faccess, int *attach)
 
     HEclear();
 
-    file_rec = HAatom_object(file_id);
+    file_rec = HIfid2rec(file_id);
     if (BADFREC(file_rec))
         HGOTO_ERROR(DFE_BADACC, FAIL);
 
@@ -678,12 +678,12 @@ Hnextread(int32 access_id, uint16 tag, uint16 ref, int origin)
 
     /* clear error stack and check validity of the access id */
     HEclear();
-    access_rec = HAatom_object(access_id);
+    access_rec = HIaid2rec(access_id);
     if (access_rec == (accrec_t *)NULL || !(access_rec->access & DFACC_READ) ||
         (origin != DF_START && origin != DF_CURRENT)) /* DF_END is NOT supported yet !!!! */
         HGOTO_ERROR(DFE_ARGS, FAIL);
 
-    file_rec = HAatom_object(access_rec->file_id);
+    file_rec = HIfid2rec(access_rec->file_id);
     if (BADFREC(file_rec))
         HGOTO_ERROR(DFE_INTERNAL, FAIL);
 
@@ -826,7 +826,7 @@ Hstartwrite(int32 file_id, uint16 tag, uint16 ref, int32 length)
     if ((ret = Hstartaccess(file_id, BASETAG(tag), ref, DFACC_RDWR)) == FAIL)
         HGOTO_ERROR(DFE_BADAID, FAIL);
 
-    access_rec = HAatom_object(ret);
+    access_rec = HIaid2rec(ret);
 
     /* if new element set the length */
     if (access_rec->new_elem && (Hsetlength(ret, length) == FAIL)) {
@@ -871,7 +871,7 @@ Hstartaccess(int32 file_id, uint16 tag, uint16 ref, uint32 flags)
     /* clear error stack and check validity of file id */
     HEclear();
 
-    file_rec = HAatom_object(file_id);
+    file_rec = HIfid2rec(file_id);
     if (BADFREC(file_rec))
         HGOTO_ERROR(DFE_ARGS, FAIL);
 
@@ -1011,7 +1011,7 @@ Hsetlength(int32 aid, int32 length)
     /* clear error stack and check validity of file id */
     HEclear();
 
-    if ((access_rec = HAatom_object(aid)) == NULL) /* get the access_rec pointer */
+    if ((access_rec = HIaid2rec(aid)) == NULL) /* get the access_rec pointer */
         HGOTO_ERROR(DFE_ARGS, FAIL);
 
     /* Check whether we are allowed to change the length */
@@ -1022,7 +1022,7 @@ Hsetlength(int32 aid, int32 length)
     if (!(access_rec->access & DFACC_WRITE))
         HGOTO_ERROR(DFE_DENIED, FAIL);
 
-    file_rec = HAatom_object(access_rec->file_id);
+    file_rec = HIfid2rec(access_rec->file_id);
     if (BADFREC(file_rec))
         HGOTO_ERROR(DFE_ARGS, FAIL);
 
@@ -1064,7 +1064,7 @@ Happendable(int32 aid)
 
     /* clear error stack and check validity of file id */
     HEclear();
-    if ((access_rec = HAatom_object(aid)) == NULL) /* get the access_rec pointer */
+    if ((access_rec = HIaid2rec(aid)) == NULL) /* get the access_rec pointer */
         HGOTO_ERROR(DFE_ARGS, FAIL);
 
     /* just indicate that the data should be appendable, and only convert */
@@ -1101,10 +1101,10 @@ HPisappendable(int32 aid)
 
     /* clear error stack and check validity of file id */
     HEclear();
-    if ((access_rec = HAatom_object(aid)) == NULL) /* get the access_rec pointer */
+    if ((access_rec = HIaid2rec(aid)) == NULL) /* get the access_rec pointer */
         HGOTO_ERROR(DFE_ARGS, FAIL);
 
-    file_rec = HAatom_object(access_rec->file_id);
+    file_rec = HIfid2rec(access_rec->file_id);
     if (BADFREC(file_rec))
         HGOTO_ERROR(DFE_ARGS, FAIL);
 
@@ -1156,7 +1156,7 @@ Hseek(int32 access_id, int32 offset, int origin)
     /* clear error stack and check validity of this access id */
     HEclear();
 
-    access_rec = HAatom_object(access_id);
+    access_rec = HIaid2rec(access_id);
     if (access_rec == (accrec_t *)NULL || (origin != DF_START && origin != DF_CURRENT && origin != DF_END))
         HGOTO_ERROR(DFE_ARGS, FAIL);
 
@@ -1189,7 +1189,7 @@ Hseek(int32 access_id, int32 offset, int origin)
 
     /* check if element is appendable and writing past current element length */
     if (access_rec->appendable && offset >= data_len) { /* yes */
-        file_rec = HAatom_object(access_rec->file_id);
+        file_rec = HIfid2rec(access_rec->file_id);
 
         /* check if we are at end of file */
         if (data_len + data_off !=
@@ -1239,7 +1239,7 @@ Htell(int32 access_id)
     /* clear error stack and check validity of this access id */
     HEclear();
 
-    access_rec = HAatom_object(access_id);
+    access_rec = HIaid2rec(access_id);
     if (access_rec == (accrec_t *)NULL)
         HGOTO_ERROR(DFE_ARGS, FAIL);
 
@@ -1278,7 +1278,7 @@ Hread(int32 access_id, int32 length, void *data)
 
     /* clear error stack and check validity of access id */
     HEclear();
-    access_rec = HAatom_object(access_id);
+    access_rec = HIaid2rec(access_id);
     if (access_rec == (accrec_t *)NULL || data == NULL)
         HGOTO_ERROR(DFE_ARGS, FAIL);
 
@@ -1293,7 +1293,7 @@ Hread(int32 access_id, int32 length, void *data)
     }
 
     /* check validity of file record */
-    file_rec = HAatom_object(access_rec->file_id);
+    file_rec = HIfid2rec(access_rec->file_id);
     if (BADFREC(file_rec))
         HGOTO_ERROR(DFE_INTERNAL, FAIL);
 
@@ -1361,7 +1361,7 @@ Hwrite(int32 access_id, int32 length, const void *data)
 
     /* clear error stack and check validity of access id */
     HEclear();
-    access_rec = HAatom_object(access_id);
+    access_rec = HIaid2rec(access_id);
     if (access_rec == (accrec_t *)NULL || !(access_rec->access & DFACC_WRITE) || data == NULL)
         HGOTO_ERROR(DFE_ARGS, FAIL);
 
@@ -1372,7 +1372,7 @@ Hwrite(int32 access_id, int32 length, const void *data)
     }              /* end special */
 
     /* check validity of file record and get dd ptr */
-    file_rec = HAatom_object(access_rec->file_id);
+    file_rec = HIfid2rec(access_rec->file_id);
     if (BADFREC(file_rec))
         HGOTO_ERROR(DFE_INTERNAL, FAIL);
 
@@ -1547,7 +1547,7 @@ Hendaccess(int32 access_id)
 
     /* clear error stack and check validity of access id */
     HEclear();
-    if ((access_rec = HAremove_atom(access_id)) == NULL)
+    if (HAatom_group(access_id) != AIDGROUP || (access_rec = HAremove_atom(access_id)) == NULL)
         HGOTO_ERROR(DFE_ARGS, FAIL);
 
     /* if special elt, call special function */
@@ -1560,7 +1560,7 @@ Hendaccess(int32 access_id)
     } /* end if */
 
     /* check validity of file record */
-    file_rec = HAatom_object(access_rec->file_id);
+    file_rec = HIfid2rec(access_rec->file_id);
     if (BADFREC(file_rec))
         HGOTO_ERROR(DFE_INTERNAL, FAIL);
 
@@ -1836,7 +1836,7 @@ Htrunc(int32 aid, int32 trunc_len)
 
     /* clear error stack and check validity of access id */
     HEclear();
-    access_rec = HAatom_object(aid);
+    access_rec = HIaid2rec(aid);
     if (access_rec == (accrec_t *)NULL || !(access_rec->access & DFACC_WRITE))
         HGOTO_ERROR(DFE_ARGS, FAIL);
 
@@ -1936,7 +1936,7 @@ Hsync(int32 file_id)
     int        ret_value = SUCCEED;
 
     /* check validity of file record and get dd ptr */
-    file_rec = HAatom_object(file_id);
+    file_rec = HIfid2rec(file_id);
     if (BADFREC(file_rec))
         HGOTO_ERROR(DFE_INTERNAL, FAIL);
 
@@ -1974,7 +1974,7 @@ Hcache(int32 file_id, int cache_on)
     } /* end if */
     else {
         /* check validity of file record and get dd ptr */
-        file_rec = HAatom_object(file_id);
+        file_rec = HIfid2rec(file_id);
         if (BADFREC(file_rec))
             HGOTO_ERROR(DFE_INTERNAL, FAIL);
 
@@ -2009,7 +2009,7 @@ HDvalidfid(int32 file_id)
     int        ret_value = TRUE;
 
     /* convert file id to file rec and check for validity */
-    file_rec = HAatom_object(file_id);
+    file_rec = HIfid2rec(file_id);
     if (BADFREC(file_rec))
         ret_value = FALSE;
 
@@ -2051,7 +2051,7 @@ Hsetaccesstype(int32 access_id, unsigned accesstype)
     /* clear error stack and check validity of this access id */
     HEclear();
 
-    access_rec = HAatom_object(access_id);
+    access_rec = HIaid2rec(access_id);
     if (access_rec == (accrec_t *)NULL)
         HGOTO_ERROR(DFE_ARGS, FAIL);
     if (accesstype != DFACC_DEFAULT && accesstype != DFACC_SERIAL && accesstype != DFACC_PARALLEL)
@@ -2274,7 +2274,7 @@ HIget_function_table(accrec_t *access_rec)
     funclist_t *ret_value = NULL; /* FAIL */
 
     /* read in the special code in the special elt */
-    file_rec = HAatom_object(access_rec->file_id);
+    file_rec = HIfid2rec(access_rec->file_id);
 
     /* get the offset and length of the dataset */
     if (HTPinquire(access_rec->ddid, NULL, NULL, &data_off, NULL) == FAIL)
@@ -2511,7 +2511,7 @@ Hgetfileversion(int32 file_id, uint32 *majorv, uint32 *minorv, uint32 *release, 
 
     HEclear();
 
-    file_rec = HAatom_object(file_id);
+    file_rec = HIfid2rec(file_id);
     if (BADFREC(file_rec))
         HGOTO_ERROR(DFE_ARGS, FAIL);
 
@@ -2552,7 +2552,7 @@ HIcheckfileversion(int32 file_id)
 
     HEclear();
 
-    file_rec = HAatom_object(file_id);
+    file_rec = HIfid2rec(file_id);
     if (BADFREC(file_rec))
         HGOTO_ERROR(DFE_ARGS, FAIL);
 
@@ -2868,7 +2868,7 @@ HIupdate_version(int32 file_id)
     HEclear();
 
     /* Check args */
-    file_rec = HAatom_object(file_id);
+    file_rec = HIfid2rec(file_id);
     if (BADFREC(file_rec))
         HGOTO_ERROR(DFE_ARGS, FAIL);
 
@@ -2925,7 +2925,7 @@ HIread_version(int32 file_id)
 
     HEclear();
 
-    file_rec = HAatom_object(file_id);
+    file_rec = HIfid2rec(file_id);
     if (BADFREC(file_rec))
         HGOTO_ERROR(DFE_ARGS, FAIL);
 
@@ -3087,7 +3087,7 @@ HDget_special_info(int32 access_id, sp_info_block_t *info_block)
 
     /* clear error stack and check validity of access id */
     HEclear();
-    access_rec = HAatom_object(access_id);
+    access_rec = HIaid2rec(access_id);
     if (access_rec == (accrec_t *)NULL || info_block == NULL)
         HGOTO_ERROR(DFE_ARGS, FAIL);
 
@@ -3127,7 +3127,7 @@ HDset_special_info(int32 access_id, sp_info_block_t *info_block)
 
     /* clear error stack and check validity of access id */
     HEclear();
-    access_rec = HAatom_object(access_id);
+    access_rec = HIaid2rec(access_id);
     if (access_rec == (accrec_t *)NULL || info_block == NULL)
         HGOTO_ERROR(DFE_ARGS, FAIL);
 
@@ -3429,7 +3429,7 @@ HDcheck_empty(int32 file_id, uint16 tag, uint16 ref, int *emptySDS /* TRUE if da
     HEclear();
 
     /* convert file id to file rec and check for validity */
-    file_rec = HAatom_object(file_id);
+    file_rec = HIfid2rec(file_id);
     if (BADFREC(file_rec))
         HGOTO_ERROR(DFE_ARGS, FAIL);
 
